@@ -47,8 +47,71 @@ static int add_state(const RCP<const Basic> &e, const std::string &recipe, const
     return S.size() - 1;
 }
 
+// RefEval evaluates lambertw only on the real axis.  For the circle every LambertW node is replaced (structurally) by a
+// fresh symbol _Wk whose value is computed here: principal branch by Halley iteration from the series / log(1+z) start.
+static bool lambertw0(cq z, cq &w)
+{
+    rq az = absq(z);
+    if (az < 0.3Q)
+        w = z - z * z + mkc(1.5Q, 0) * z * z * z;
+    else if (re(z) > -0.2Q)
+        w = clogq(mkc(1, 0) + z);
+    else
+        return false; // towards the branch point -1/e: not needed for the enumerated recipes
+    for (int i = 0; i < 100; i++) {
+        cq ew = cexpq(w), f = w * ew - z;
+        cq d = ew * (w + mkc(1, 0)) - (w + mkc(2, 0)) * f / (mkc(2, 0) * w + mkc(2, 0));
+        if (d == 0)
+            return false;
+        cq nw = w - f / d;
+        bool done = absq(nw - w) <= 1e-33Q * (absq(nw) + 1e-40Q);
+        w = nw;
+        if (done)
+            break;
+    }
+    return absq(w * cexpq(w) - z) <= 1e-30Q * (az + 1e-40Q) + 1e-40Q && fabsq(im(w)) < M_PIq;
+}
+struct Prepared {
+    RCP<const Basic> e;                                          // LambertW nodes replaced by symbols
+    std::vector<std::pair<std::string, RCP<const Basic>>> defs; // _Wk := lambertw(arg_k) (arg_k already substituted), inner first
+};
+static void collect_w(const RCP<const Basic> &e, map_basic_basic &m, Prepared &P)
+{
+    for (auto &a : e->get_args())
+        collect_w(a, m, P);
+    if (is_a<LambertW>(*e) && m.find(e) == m.end()) {
+        std::string n = "_W" + std::to_string(P.defs.size());
+        P.defs.push_back({n, e->get_args()[0]->xreplace(m)});
+        m[e] = symbol(n);
+    }
+}
+static Prepared prepare(const RCP<const Basic> &e)
+{
+    Prepared P;
+    map_basic_basic m;
+    collect_w(e, m, P);
+    P.e = P.defs.empty() ? e : e->xreplace(m);
+    return P;
+}
+static Value eval_prepared(const Prepared &P, Env &env)
+{
+    for (auto &d : P.defs) {
+        Value a = refeval(*d.second, env);
+        if (!a.ok)
+            return a;
+        cq w;
+        if (!lambertw0(a.v, w)) {
+            Value f;
+            f.why = "lambertw-argument-outside-reference-range";
+            return f;
+        }
+        env.sym[d.first] = w;
+    }
+    return refeval(*P.e, env);
+}
+
 // DFT Taylor coefficients of e on |z| = r.  Returns false (with reason) when not evaluable / not analytic.
-static bool taylor(const Basic &e, rq r, std::vector<cq> &a, rq &maxf, std::string &why)
+static bool taylor(const Prepared &e, rq r, std::vector<cq> &a, rq &maxf, std::string &why)
 {
     std::vector<cq> f(NPT);
     maxf = 0;
@@ -56,7 +119,7 @@ static bool taylor(const Basic &e, rq r, std::vector<cq> &a, rq &maxf, std::stri
         rq th = 2 * M_PIq * j / NPT;
         Env env;
         env.sym["x"] = mkc(r * cosq(th), r * sinq(th));
-        Value v = refeval(e, env);
+        Value v = eval_prepared(e, env);
         if (!v.ok) {
             why = "refeval:" + v.why;
             return false;
@@ -146,21 +209,28 @@ static std::string sig_of(const St &st)
 }
 
 enum { K_STATES_JUDGED, K_SKIP_NOT_ANALYTIC, K_SKIP_REFEVAL, K_SERIES_CALLS, K_SERIES_REFUSED, K_COEFFS_COMPARED, K_COEFF_UNDECIDED,
-       K_SECOND_RADIUS, K_NONZERO_COEFFS, K_EXTRA_TERMS_BEYOND_ORDER };
+       K_SECOND_RADIUS, K_NONZERO_COEFFS, K_EXTRA_TERMS_BEYOND_ORDER, K_SKIP_POLE_ON_CIRCLE, K_SKIP_ON_CUT, K_SKIP_NEARCUT };
 
 static void check_state(const St &st, Ctx &c, int ord_lo, int ord_hi, int ord_step)
 {
     std::vector<cq> a;
     rq maxf, r = 0.125Q;
     std::string why;
-    bool ok = taylor(*st.e, r, a, maxf, why);
+    Prepared pe = prepare(st.e);
+    bool ok = taylor(pe, r, a, maxf, why);
     if (!ok && why == "not-analytic-or-singularity-too-close") {
         r = 1.0Q / 32;
         c.count(K_SECOND_RADIUS);
-        ok = taylor(*st.e, r, a, maxf, why);
+        ok = taylor(pe, r, a, maxf, why);
     }
     if (!ok) {
-        c.count(why.rfind("refeval:", 0) == 0 || why == "on-branch-cut-on-the-circle" ? K_SKIP_REFEVAL : K_SKIP_NOT_ANALYTIC);
+        c.count(why == "refeval:pole" || why == "refeval:nonfinite" ? K_SKIP_POLE_ON_CIRCLE
+                : why == "on-branch-cut-on-the-circle"               ? K_SKIP_ON_CUT
+                : why == "refeval:near-cut"                          ? K_SKIP_NEARCUT
+                : why.rfind("refeval:", 0) == 0                      ? K_SKIP_REFEVAL
+                                                                     : K_SKIP_NOT_ANALYTIC);
+        if (getenv("VERIF_C31_DEBUG"))
+            fprintf(stderr, "DBG skip %s: %s\n", why.c_str(), sstr(st.e).c_str());
         c.outcome("skip " + why.substr(0, 40));
         return;
     }
@@ -337,17 +407,17 @@ int main(int argc, char **argv)
             size_t before = S.size();
             int idx = add_state(e, f.name + "(" + base.recipe + ")", f.name + "(" + base.sigclass + ")", 2);
             if (S.size() > before) {
+                // symbolic constants in the inner series (sin(1/2), pi/2 of acos(x), log 2 of 2**g, ...) make the un-simplified
+                // Expression coefficients of the outer expansion swell (minutes at order 8): such compositions go to order 4 only.
+                // Rule: the inner state's value at 0 is not a rational with denominator <= 24, or the inner function is 2**(.)
                 Env at0;
                 at0.sym["x"] = mkc(0, 0);
-                bool constterm = false;
-                for (auto &g : GS)
-                    if (base.recipe.size() > g.name.size() + 2
-                        && base.recipe.compare(base.recipe.size() - g.name.size() - 2, g.name.size() + 2, "(" + g.name + ")") == 0) {
-                        Value v = refeval(*g.e, at0);
-                        constterm = !(v.ok && absq(v.v) < 1e-30Q);
-                    }
-                // 2**g = exp(g*log 2) puts a symbolic log(2) into every coefficient as well
-                if (constterm || base.recipe.rfind("2**(", 0) == 0)
+                Value v = refeval(*base.e, at0);
+                bool rational0 = false;
+                if (v.ok && fabsq(im(v.v)) < 1e-30Q)
+                    for (int q = 1; q <= 24 && !rational0; q++)
+                        rational0 = fabsq(re(v.v) * q - roundq(re(v.v) * q)) < 1e-25Q;
+                if (!rational0 || base.recipe.rfind("2**(", 0) == 0)
                     S[idx].maxord = 4;
             }
         }
@@ -355,9 +425,11 @@ int main(int argc, char **argv)
     printf("[C31] E1: %zu inner series, %zu functions; states: depth0 %zu, depth<=1 %zu, depth<=2 %zu\n", GS.size(), FS.size(), n0, n1, n2);
 
     std::vector<std::string> cn = {"states_judged(analytic,evaluable)", "states_skipped_not_analytic_at_0_or_singularity_within_~1/12",
-                                   "states_skipped_refeval_failed_on_circle", "series_calls", "series_calls_refused(exception)",
+                                   "states_skipped_refeval_failed_on_circle(other reasons)", "series_calls", "series_calls_refused(exception)",
                                    "coefficients_compared", "coefficients_undecided(refeval of coefficient failed)",
-                                   "states_retried_on_radius_1/32", "states_with_nonzero_coefficients", "terms_beyond_requested_order(ignored)"};
+                                   "states_retried_on_radius_1/32", "states_with_nonzero_coefficients", "terms_beyond_requested_order(ignored)",
+                                   "states_skipped_pole_or_overflow_on_the_circle", "states_skipped_branch_cut_crosses_the_circle",
+                                   "states_skipped_near_cut_on_the_circle"};
     Run &R = run();
     CaseSet c1;
     c1.name = "depth<=1";
@@ -386,9 +458,9 @@ int main(int argc, char **argv)
         };
         run_cases(c2);
         bound = thorough ? "recipes of <= 2 operations: F(g), F2(F1(g)), F(g)*h, F(g)+h over 10 inner series and 30 functions/powers, orders 1..8 (1..4 for "
-                           "compositions over inner series with a constant term or over 2**g)"
+                           "compositions whose inner series has symbolic constants)"
                          : "recipes of <= 1 operation at orders 1..8; recipes of 2 operations F2(F1(g)) (g in {x, x+x^2, 1/2+x}) and F(g)*h (h in {x, x+x^2, "
-                           "1/2+x, cos x}) at orders {2,5,8} ({2,4} for compositions over 1/2+x or 2**g)";
+                           "1/2+x, cos x}) at orders {2,5,8} ({2,4} when the inner series has symbolic constants)";
     }
     R.states = S.size();
     R.transitions = R.evaluations;
